@@ -229,8 +229,19 @@ func (l *Life) EffectCount() int {
 	return l.Effects
 }
 
+// YieldHook, when set (scheduler-based exploration), is a scheduling point in
+// front of every simulated service call.
+var YieldHook func(what string)
+
+// Spawn starts a goroutine of the simulation; the scheduler-based engine
+// replaces it so that such goroutines become managed threads.
+var Spawn = func(f func()) { go f() }
+
 // Op must be called at the start of every simulated service call.
 func (l *Life) Op(effect bool) {
+	if YieldHook != nil {
+		YieldHook("env")
+	}
 	l.mu.Lock()
 	if l.dead {
 		l.mu.Unlock()
